@@ -58,6 +58,16 @@ Fixpoint imports_of (t : ty) : list str :=
 (* the variable handed to the templates: declared name, type, and the imports its type needs *)
 Record var := { v_name : str; v_ty : ty; v_imports : list str }.
 
+(* AddVar resolves a replacement by packages.Load(pkg-path) and Scope().Lookup(type-name) in the
+   package's FULL scope (type-checked from source: unexported names included, which matters for
+   in-package mocks), and renders object.Type().  For an ordinary named type or alias that prints
+   as the name; for a GENERIC type go/types prints the declaration's type-parameter list after
+   it ("fakeG[T any]"), which is not a type expression: the configuration has no way to name
+   an instantiation.  [decl] gives that list for every target ([] for an ordinary type);
+   [resolve_targets] is the map as AddVar sees it.  Known finding C13-generic-target. *)
+Definition resolve_targets (decl : rkey -> str) (rt : rtmap) : rtmap :=
+  map (fun e => (fst e, (fst (snd e), snd (snd e) ++ decl (snd e)))) rt.
+
 (* methodData's switch + GetReplacement: only a parameter whose type IS a named/alias type has a
    key *)
 Definition replacement (rt : rtmap) (t : ty) : option rkey :=
